@@ -260,7 +260,7 @@ def replay_dispatch(o):
         if z3.is_true(ev(S.entry_ok(e))):
             exp_word = ev(S.expected(e)).as_long()
     st, data = T.native_call(src, r["cfg"], cd, value=val, evm_version=r["evm"])
-    det = f"cfg={r['cfg']} calldata=0x{cd.hex()} value={val}: native -> {st} {data.hex() if st == 'return' else ''}; contract: must_succeed={must_succeed} may_succeed={may_succeed} expected_word={exp_word}"
+    det = f"cfg={r['cfg']} calldata=0x{cd.hex()[:600]} value={val}: native -> {st} {data.hex() if st == 'return' else ''}; contract: must_succeed={must_succeed} may_succeed={may_succeed} expected_word={exp_word}"
     bad = (st == "return" and not may_succeed) or (st == "revert" and must_succeed) or (st == "return" and exp_word is not None and data != exp_word.to_bytes(32, "big"))
     return {"reproduced": bool(bad), "detail": det}
 
